@@ -27,6 +27,16 @@ TRIAGE = {
     "e7f5a5197b": "equivalent: `Environmental.decodeOne` hands every token to `Temporal.decodeOne` / `Base.decodeOne` first, which apply the same well-formedness test",
     "a693dbb5af": "inside the properties: an unsupported metric is now reported at once and every other token error is deferred to the end of the loop; acceptance is unchanged and the reported sentinel still names a defect the vector has (C11 asks for that, not for a particular choice among several) -- the same latitude as `L1` of 11.9",
     "a1f611e1b8": "inside the properties: as the line above, for the v2 Environmental decoder",
+    "c589ef5680": "outside the properties: weight returned for an *invalid* v2 Availability Requirement",
+    "26921afafa": "outside the properties: weight returned for an *invalid* Modified Availability value",
+    "32e4b8c33a": "outside the properties: weight returned for an *invalid* Privileges Required value",
+    "f76ae77365": "outside the properties: weight returned for an *invalid* Modified Privileges Required value",
+    "d67734f9cd": "outside the properties: unused `IsDefined()` of the v2 Availability Requirement (MODEL-DRIFT only)",
+    "7ee1e3676a": "equivalent: the v2 Environmental decodeOne hands every token to Temporal/Base decodeOne first, which apply the same well-formedness test and return before the weakened test is reached",
+    "42506d9901": "equivalent: as above, for the v2 Temporal decodeOne",
+    "8995821a07": "equivalent: as above, for the v3 Environmental decodeOne",
+    "10c59a60b5": "inside the properties: in Base.Decode an unsupported metric is reported at once and other token errors are deferred; acceptance is unchanged and the sentinel names a defect the vector has (latitude of C11, as `L1`)",
+    "0edaac976d": "equivalent: v2 scores lie on the 0.1 grid, so `>= 3.99` and `>= 4.0` select the same scores",
     "4a5eb510a3": "not a violation: capping AdjustedImpact at 9.99 instead of 10 changes 405 of the 46,656 adjusted base scores, and every one of them changes from the KF-1 value to the value of the exact equation (checked independently with rationals); C05 correctly reports fewer KNOWN-FINDING observations and no violation",
 }
 
